@@ -101,7 +101,7 @@ func buildScript(fr *FuncResult, upto int, goal string, pre string) string {
 		b.WriteByte('\n')
 	}
 	grp := ""
-	if upto < len(fr.Facts) && fr.Facts[upto].Oblig {
+	if upto < len(fr.Facts) && fr.Facts[upto].Oblig && fr.Spec != nil && fr.Spec.Opts["group-hyps"] != "" {
 		grp = oblGroup(fr.Facts[upto].Name)
 	}
 	for j := 0; j < upto; j++ {
@@ -123,6 +123,10 @@ func buildScript(fr *FuncResult, upto int, goal string, pre string) string {
 }
 
 func runSolver(sd solverDef, script string, file string, timeout time.Duration, seed int) (string, string, float64) {
+	return runSolverCtx(context.Background(), sd, script, file, timeout, seed)
+}
+
+func runSolverCtx(parent context.Context, sd solverDef, script string, file string, timeout time.Duration, seed int) (string, string, float64) {
 	full := sd.pre(seed) + script
 	if err := os.WriteFile(file, []byte(full), 0o644); err != nil {
 		return "error", err.Error(), 0
@@ -131,7 +135,7 @@ func runSolver(sd solverDef, script string, file string, timeout time.Duration, 
 	if secs < 1 {
 		secs = 1
 	}
-	ctx, cancel := context.WithTimeout(context.Background(), timeout+3*time.Second)
+	ctx, cancel := context.WithTimeout(parent, timeout+3*time.Second)
 	defer cancel()
 	args := sd.cmd(file, secs)
 	cmd := exec.CommandContext(ctx, args[0], args[1:]...)
@@ -197,12 +201,9 @@ func solveObligation(fr *FuncResult, idx int, opts SolveOpts, id int) OblResult 
 		wg.Wait()
 		return res
 	}
-	// quick: z3-new with a short budget, then the others in parallel with the full budget
-	short := opts.Timeout / 3
-	if short < 2*time.Second {
-		short = 2 * time.Second
-	}
-	st, out, el := runSolver(solvers[0], script, file, short, opts.Seed)
+	// quick: a very short z3-new attempt (most obligations take milliseconds), then a portfolio in parallel --
+	// z3-new under two seeds, z3 4.8.12 and cvc5 -- where the first definite answer wins and stops the others.
+	st, out, el := runSolver(solvers[0], script, file, 2*time.Second, opts.Seed)
 	total := el
 	if st == "unsat" {
 		res.Status, res.Solver, res.Secs = "discharged", solvers[0].name, el
@@ -221,15 +222,26 @@ func solveObligation(fr *FuncResult, idx int, opts SolveOpts, id int) OblResult 
 		st, out, name string
 		el            float64
 	}
-	ch := make(chan r, 3)
-	run := func(i int, to time.Duration) {
-		s, o, e := runSolver(solvers[i], script, fmt.Sprintf("%s.%d", file, i), to, opts.Seed)
-		ch <- r{s, o, solvers[i].name, e}
+	ctx, cancel := context.WithCancel(context.Background())
+	defer cancel()
+	type att struct {
+		sd   int
+		seed int
 	}
-	go run(1, opts.Timeout)
-	go run(2, opts.Timeout)
-	go run(0, opts.Timeout)
-	for k := 0; k < 3; k++ {
+	atts := []att{{0, opts.Seed}, {0, opts.Seed + 17}, {1, opts.Seed}, {2, opts.Seed}}
+	ch := make(chan r, len(atts))
+	for k, a := range atts {
+		go func(k int, a att) {
+			s, o, e := runSolverCtx(ctx, solvers[a.sd], script, fmt.Sprintf("%s.%d", file, k), opts.Timeout, a.seed)
+			ch <- r{s, o, solvers[a.sd].name, e}
+		}(k, a)
+	}
+	defer func() {
+		for k := range atts {
+			os.Remove(fmt.Sprintf("%s.%d", file, k))
+		}
+	}()
+	for k := 0; k < len(atts); k++ {
 		x := <-ch
 		if x.st == "unsat" {
 			res.Status, res.Solver, res.Secs = "discharged", x.name, total+x.el
